@@ -258,7 +258,7 @@ pub fn run_c20(ctx: &Ctx) -> ! {
         }
         // ---- tracker histories (no time ops: the alloc-only build has no clock)
         let strat = tracker::scenario_s(40, true);
-        let mut runner = TestRunner::new(Config { cases: nhist / WORKERS as u32, failure_persistence: None, rng_seed: RngSeed::Fixed(ctx.seed ^ (0x2000 + w as u64)), max_shrink_iters: 1500, ..Config::default() });
+        let mut runner = TestRunner::new(Config { cases: nhist / WORKERS as u32, failure_persistence: None, rng_seed: RngSeed::Fixed(runner_seed(ctx.seed, 0x2000, w as u64)), max_shrink_iters: 1500, ..Config::default() });
         let cell = std::cell::RefCell::new((worker, Stats::default(), true));
         let res = runner.run(&strat, |s| {
             let (frames, rx, range, waits) = history_frames(&s);
